@@ -21,10 +21,15 @@ def run(tier, seed):
     # (1) chains
     # chains are long histories: a small box (-1..1) and universe (-6..6) keep the witness sets small; the
     # stabilisation judgement (WidenChain) does not depend on them
-    nchains = 10 if tier == "quick" else 150
+    nchains = 10 if tier == "quick" else 90
     hs = [hist.chain_history(ck.rng, i + 1, n=ck.rng.choice([25, 35]), params=ck.rng.choice(c03.PARAMS)) for i in range(nchains)]
-    fails, knowns, traces = domops.run_batch(ck, "chains", hs, doms, box=1, univ=6, timeout=2400, step_timeout=60)
-    tp = os.path.join(vlib.BUILD, "work", "c05-chains", "traces.ndjson")
+    fails, knowns, traces = [], [], []
+    for off in range(0, nchains, 15):       # batches: one TLC run validates 15 chains x all domains step by step
+        f_, k_, t_ = domops.run_batch(ck, "chains%d" % off, hs[off:off + 15], doms, box=1, univ=6, timeout=2400, step_timeout=60)
+        fails += f_
+        knowns += k_
+        traces += t_
+    tp = os.path.join(vlib.workdir("c05-chains"), "traces.ndjson")
     caps = {h["id"]: hist.chain_cap(h) for h in hs}
     for t in traces:
         t["cap"] = caps[t["id"]]
